@@ -298,7 +298,10 @@ def h_tx_roundtrip(ex, segwit, max_in, max_out, ukinds, lkinds, wkinds, min_in=1
     try:
         t = T.Transaction.parse_bytesio(stream, strict=True)
     except T.TransactionError:
-        ex.check(False, 'well-formed-transaction-accepted', known=kf('C06-empty-locking-script-rejected', any(len(o[1]) == 0 for o in outs)))
+        single_push = s_or(*([s_and(f[3][0] == 1) for f in fields if len(f[3]) == 2] or [False]))
+        ex.check(False, 'well-formed-transaction-accepted',
+                 known=kf('C06-empty-locking-script-rejected', any(len(o[1]) == 0 for o in outs)) +
+                 kf('C06-single-push-scriptsig-rejected', single_push))
         return
     except S.ScriptError:
         trunc = s_or(*[_truncated_push(b) for b in [f[3] for f in fields] + [o[1] for o in outs] + wit_items if 1 <= len(b) <= 2])
